@@ -154,6 +154,7 @@ class Directive:
         self.replaces = []
         self.rename_generic = []
         self.drop_body = False
+        self.exec_const = None
 
 
 def parse_template(text, unit_path):
@@ -166,6 +167,15 @@ def parse_template(text, unit_path):
         st = ln.strip()
         if st.startswith("//! props:"):
             header["props"] = st.split(":", 1)[1].split()
+        if st.startswith("//@ expand-consts "):
+            if buf:
+                chunks.append(("text", "\n".join(buf) + "\n", buf_start)); buf = []
+            parts = [x.strip() for x in st[len("//@ expand-consts "):].split("::", 2)]
+            # the template may itself contain `::`; the macro path never does beyond `macro name`
+            chunks.append(("expand", parts[0], parts[1], parts[2], i + 1))
+            i += 1
+            buf_start = i + 1
+            continue
         if st.startswith("//@ extract "):
             if buf:
                 chunks.append(("text", "\n".join(buf) + "\n", buf_start)); buf = []
@@ -232,6 +242,8 @@ def parse_template(text, unit_path):
                     elif key == "loop-iter":
                         k2, nm = rest.split()
                         d.loop_iters[int(k2)] = nm
+                    elif key == "exec-const":
+                        d.exec_const = rest
                     elif key == "boolops":
                         d.boolops = True
                     elif key == "debug-assert":
@@ -523,6 +535,26 @@ def render_data(doc, it, parent, d, relfile, report):
             for f in v["fields"]:
                 for a in f["attrs"]:
                     ed.replace(a["span"][0], a["span"][1], "")
+    if it["kind"] == "const" and d.exec_const:
+        # `const N: T = f(a, b);`  ->  `exec const N: T ensures <template> { f(a, b) }`   (Verus: a const initialised by an exec call
+        # must be an exec const, whose value is visible to callers only through its ensures).  {0},{1}.. = the call's arguments as written
+        # in /repo, {expr} the whole initialiser, {name} the constant's name.
+        es, ee = it["expr"]
+        expr = src[es:ee].decode("utf-8")
+        m = re.match(r"^[\w:<>\s]+\((.*)\)\s*$", expr, re.S)
+        args = split_top_commas(m.group(1)) if m else []
+        ens = d.exec_const.replace("{expr}", expr).replace("{name}", it["name"])
+        for k, a in enumerate(args):
+            ens = ens.replace("{%d}" % k, a)
+        if re.search(r"\{\d+\}", ens):
+            raise SpliceError("exec-const: initialiser of %s has fewer arguments than the template uses" % it["name"])
+        ts, te = it["ty"]
+        # insert `exec ` before `const`, replace `= expr;` by `ensures .. { expr }`
+        txt_before = src[s0:ts].decode("utf-8")
+        kpos = s0 + txt_before.rindex("const")
+        ed.insert(kpos, "exec ")
+        ed.replace(te, e0, "\n    ensures " + ens + "\n{ " + expr + " }")
+        rw["R13"] = rw.get("R13", 0) + 1
     pieces = ed.render()
     if d.replaces:
         pieces = _apply_replaces(pieces, d, it, report)
@@ -540,6 +572,28 @@ def compose(unit_path, repo_root, twin=False):
     for ch in chunks:
         if ch[0] == "text":
             pieces.append((ch[1], ("unit", ch[2])))
+            continue
+        if ch[0] == "expand":
+            _, relf, mpath, tmpl_line, tline = ch
+            path = os.path.join(repo_root, relf)
+            if not os.path.exists(path):
+                raise SpliceError("source file missing: %s" % relf)
+            doc = spans_of(path)
+            it, parent = find_item(doc, mpath, 0)
+            if it["kind"] != "macro":
+                raise SpliceError("expand-consts: %s is not a macro invocation" % mpath)
+            a0, a1 = it["args"]
+            args = doc["bytes"][a0:a1].decode("utf-8")
+            # strip comments, then read `NAME = VALUE,` pairs (R13)
+            args_nc = re.sub(r"//[^\n]*", "", args)
+            n = 0
+            for m in re.finditer(r"([A-Za-z_][A-Za-z0-9_]*)\s*=\s*([^,]+),", args_nc):
+                pieces.append((tmpl_line.replace("{name}", m.group(1)).replace("{val}", m.group(2).strip()) + "\n", ("repo", relf, a0)))
+                n += 1
+            if n == 0:
+                raise SpliceError("expand-consts: no NAME = VALUE pairs in %s" % mpath)
+            report["rewrites"]["R13"] = report["rewrites"].get("R13", 0) + n
+            report["items"].append("%s :: %s (expanded, %d constants)" % (relf, mpath, n))
             continue
         d = ch[1]
         path = os.path.join(repo_root, d.file)
